@@ -160,8 +160,170 @@ func c03FastFloat(c *Ctx, p *Prog, R string) {
 		k, isK := constInt(cc.Args[1])
 		c.Check(cc.Args[0] == fn.Params[0] && isK && k == 64, R, "wrapper:slow-path", p.pos(call.Pos()), "falls back to ParseFloat(whole input, 64)", "the fallback does not parse the whole input with bit size 64")
 	}
-	// success returns other than the fallback's
+	// The accumulation loop may live in the wrapper or in a helper it calls (same package): find every loop that
+	// multiplies an int64 loop variable by ten and adds a converted byte.
+	type accLoop struct {
+		fn  *ssa.Function
+		lp  *loopInfo
+		acc *ssa.Phi
+		upd *ssa.BinOp
+	}
+	var accs []accLoop
+	for _, g := range staticReach([]*ssa.Function{fn}, bfPkg) {
+		if g.Pkg == nil || g.Pkg.Pkg.Path() != bfPkg {
+			continue
+		}
+		for _, lp := range naturalLoops(g) {
+			for _, in := range lp.Header.Instrs {
+				phi, ok := in.(*ssa.Phi)
+				if !ok {
+					break
+				}
+				if !isInteger(phi.Type()) {
+					continue
+				}
+				for _, e := range phi.Edges {
+					bo, ok := e.(*ssa.BinOp)
+					if !ok || bo.Op != token.ADD {
+						continue
+					}
+					for _, side := range []ssa.Value{bo.X, bo.Y} {
+						if mul, ok := side.(*ssa.BinOp); ok && mul.Op == token.MUL {
+							if k, ok := constInt(mul.Y); ok && k == 10 && mul.X == phi {
+								accs = append(accs, accLoop{g, lp, phi, bo})
+							}
+							if k, ok := constInt(mul.X); ok && k == 10 && mul.Y == phi {
+								accs = append(accs, accLoop{g, lp, phi, bo})
+							}
+						}
+					}
+				}
+			}
+		}
+	}
 	nFast := 0
+	for _, a := range accs {
+		nFast++
+		key := fmt.Sprintf("fast-path:accumulate#%d", nFast)
+		site := p.pos(a.upd.Pos())
+		bt, _ := a.acc.Type().Underlying().(*types.Basic)
+		if bt == nil || bt.Kind() != types.Int64 {
+			c.Bad(R, key, site, "the fast path's accumulator is not an int64")
+			continue
+		}
+		// every path of one iteration that reaches the multiply-add must have established: the byte is a digit, and the
+		// accumulator is at most G with 10*G+9 <= MaxInt64. Read from the path conditions (whatever statement form).
+		start := loopBodyStart(a.lp)
+		mk := func() *e6Interp { return &e6Interp{PureCall: func(f *types.Func) bool { return true }} }
+		outs, why := e6Enumerate(mk, start, a.lp.Header, iterStop(a.lp, start), 256)
+		if why != "" || start == nil {
+			c.Undecided(R, key, site, "cannot tabulate the accumulation loop: "+why)
+			continue
+		}
+		maxI := new(big.Int).SetUint64(1<<63 - 1)
+		nPaths := 0
+		for _, o := range outs {
+			if o.Term != "exit" || o.Exit != a.lp.Header {
+				continue // leaves the loop or the function
+			}
+			// does this path perform the update?
+			newAcc := ""
+			for j, pr := range a.lp.Header.Preds {
+				if pr == o.ExitFrom {
+					newAcc = o.Val(a.acc.Edges[j]).String()
+				}
+			}
+			if !strings.Contains(newAcc, "* 10") && !strings.Contains(newAcc, "10 *") {
+				continue
+			}
+			nPaths++
+			digitOK := false
+			var G *big.Int
+			lo, hi := false, false
+			for k, v := range o.Assign {
+				s := o.AtomSyms[k]
+				if s.Op != "binop" || len(s.Args) != 2 {
+					continue
+				}
+				x, y := s.Args[0], s.Args[1]
+				isSub48 := func(z *Sym) bool {
+					return z.Op == "binop" && z.Tok == token.SUB && z.Args[1].isConst() && z.Args[1].String() == "48" && (z.Type == nil || isUint8(z.Type))
+				}
+				num := func(z *Sym) (*big.Int, bool) {
+					if z.isConst() && z.Const != nil && z.Const.Kind() == constant.Int {
+						n, ok := new(big.Int).SetString(z.Const.ExactString(), 10)
+						return n, ok
+					}
+					return nil, false
+				}
+				isAcc := func(z *Sym) bool { return z.Op == "opaque" && strings.Contains(z.Name, "phi:"+a.acc.Comment) }
+				isByte := func(z *Sym) bool { return (z.Op == "load" || z.Op == "index" || z.Op == "opaque" || z.Op == "extract") && !isAcc(z) }
+				// normalise to  e op n  with the constant on the right
+				op := s.Tok
+				e, n, okN := x, (*big.Int)(nil), false
+				if nn, ok := num(y); ok {
+					n, okN = nn, true
+				} else if nn, ok := num(x); ok {
+					e, n, okN = y, nn, true
+					switch op {
+					case token.LSS:
+						op = token.GTR
+					case token.LEQ:
+						op = token.GEQ
+					case token.GTR:
+						op = token.LSS
+					case token.GEQ:
+						op = token.LEQ
+					}
+				}
+				if !okN {
+					continue
+				}
+				// upper bound established on e: e <= ub
+				var ub, lb *big.Int
+				switch {
+				case op == token.GTR && !v, op == token.LEQ && v:
+					ub = n
+				case op == token.GEQ && !v, op == token.LSS && v:
+					ub = new(big.Int).Sub(n, big.NewInt(1))
+				case op == token.LSS && !v, op == token.GEQ && v:
+					lb = n
+				case op == token.LEQ && !v, op == token.GTR && v:
+					lb = new(big.Int).Add(n, big.NewInt(1))
+				}
+				switch {
+				case isSub48(e) && ub != nil && ub.Cmp(big.NewInt(9)) <= 0:
+					digitOK = true // unsigned (ch-'0') <= 9
+				case isAcc(e) && ub != nil:
+					if G == nil || ub.Cmp(G) < 0 {
+						G = ub
+					}
+				case isByte(e) && lb != nil && lb.Cmp(big.NewInt(48)) >= 0:
+					lo = true
+				case isByte(e) && ub != nil && ub.Cmp(big.NewInt(57)) <= 0:
+					hi = true
+				}
+			}
+			if lo && hi {
+				digitOK = true
+			}
+			okG := false
+			if G != nil {
+				t := new(big.Int).Mul(G, big.NewInt(10))
+				t.Add(t, big.NewInt(9))
+				okG = t.Cmp(maxI) <= 0
+			}
+			c.Check(digitOK && okG, R, fmt.Sprintf("%s:path%d", key, nPaths), site, fmt.Sprintf("digits only, accumulator at most %v with 10*G+9 <= MaxInt64", G),
+				fmt.Sprintf("the fast path can overflow or accept non-digits (digit-only test on the path: %v, accumulator bound on the path: %v, 10*G+9 <= MaxInt64: %v; path: %s): a long integer measurement wraps to a wrong value with no error", digitOK, G, okG, truncate(o.AssignStr(), 300)))
+		}
+		if nPaths == 0 {
+			c.Undecided(R, key, site, "no iteration path performing the multiply-add was found")
+		}
+	}
+	c.Floor(R, "integer accumulation loops on the measurement fast path", nFast, 1)
+	// the fast result is float64(accumulator): the wrapper's non-fallback success return converts an int64 that is
+	// the accumulator itself or the first result of the helper that holds the loop (whose own returns yield it)
+	nRet := 0
 	for _, b := range fn.Blocks {
 		ret, ok := b.Instrs[len(b.Instrs)-1].(*ssa.Return)
 		if !ok {
@@ -173,94 +335,41 @@ func c03FastFloat(c *Ctx, p *Prog, R string) {
 				continue
 			}
 		}
-		nFast++
-		key := fmt.Sprintf("wrapper:fast-return#%d", nFast)
+		nRet++
+		key := fmt.Sprintf("wrapper:fast-return#%d", nRet)
 		cv, isCv := v.(*ssa.Convert)
-		if !isCv || !isInteger(cv.X.Type()) {
-			c.Bad(R, key, p.pos(ret.Pos()), "the fast path returns "+valStr(v)+" rather than float64(integer accumulator): digits accumulated in floating point (or scaled by a power of ten) are rounded more than once, so long digit strings come out an ulp or more away from the correctly rounded value")
-			continue
-		}
-		acc, isPhi := cv.X.(*ssa.Phi)
-		bt, _ := cv.X.Type().Underlying().(*types.Basic)
-		if !isPhi || bt == nil || bt.Kind() != types.Int64 {
-			c.Bad(R, key, p.pos(ret.Pos()), "the fast path's accumulator is not an int64 loop variable")
-			continue
-		}
-		// the update: acc*10 + digit, under guards
-		var upd *ssa.BinOp
-		for _, e := range acc.Edges {
-			if bo, ok := e.(*ssa.BinOp); ok && bo.Op == token.ADD {
-				upd = bo
-			}
-		}
-		if upd == nil {
-			c.Undecided(R, key, p.pos(ret.Pos()), "accumulator update not recognised")
-			continue
-		}
-		mul, _ := upd.X.(*ssa.BinOp)
-		var digit ssa.Value = upd.Y
-		if mul == nil || mul.Op != token.MUL {
-			mul, _ = upd.Y.(*ssa.BinOp)
-			digit = upd.X
-		}
-		k10, _ := constInt(mul.Y)
-		okShape := mul != nil && mul.Op == token.MUL && mul.X == acc && k10 == 10
-		// guard G: acc > G false on the path to the update
-		var G *big.Int
-		digitOK := false
-		for _, f := range factsAt(upd.Block()) {
-			bo, ok := f.Cond.(*ssa.BinOp)
-			if !ok {
-				continue
-			}
-			if bo.X == acc && bo.Op == token.GTR && !f.True {
-				if k, ok := bo.Y.(*ssa.Const); ok && k.Value != nil {
-					G, _ = new(big.Int).SetString(k.Value.ExactString(), 10)
+		okSrc := false
+		if isCv && isInteger(cv.X.Type()) {
+			for _, a := range accs {
+				if cv.X == a.acc {
+					okSrc = true
 				}
-			}
-			if bo.X == acc && bo.Op == token.GEQ && !f.True {
-				if k, ok := bo.Y.(*ssa.Const); ok && k.Value != nil {
-					G, _ = new(big.Int).SetString(k.Value.ExactString(), 10)
-					if G != nil {
-						G.Sub(G, big.NewInt(1))
-					}
-				}
-			}
-			// digit test: (ch - '0') >= 10 false, with unsigned byte arithmetic
-			if bo.Op == token.GEQ && !f.True {
-				if k, ok := constInt(bo.Y); ok && k == 10 {
-					if sub, ok := bo.X.(*ssa.BinOp); ok && sub.Op == token.SUB {
-						if k0, ok := constInt(sub.Y); ok && k0 == '0' {
-							if b, ok := sub.Type().Underlying().(*types.Basic); ok && b.Kind() == types.Uint8 {
-								if cvd, ok := digit.(*ssa.Convert); ok && cvd.X == sub {
-									digitOK = true
+				if ex, ok := cv.X.(*ssa.Extract); ok && ex.Index == 0 {
+					if call, ok := ex.Tuple.(*ssa.Call); ok && call.Call.StaticCallee() == a.fn {
+						// the helper returns the accumulator (or a constant on failure)
+						good := true
+						for _, hb := range a.fn.Blocks {
+							if hr, ok := hb.Instrs[len(hb.Instrs)-1].(*ssa.Return); ok {
+								r0 := retVal(hr, 0)
+								if _, isK := r0.(*ssa.Const); !isK && r0 != a.acc {
+									good = false
 								}
 							}
 						}
-					}
-				}
-			}
-			if bo.Op == token.GTR && !f.True {
-				if k, ok := constInt(bo.Y); ok && k == 9 {
-					if sub, ok := bo.X.(*ssa.BinOp); ok && sub.Op == token.SUB {
-						if cvd, ok := digit.(*ssa.Convert); ok && cvd.X == sub {
-							digitOK = true
-						}
+						okSrc = good
 					}
 				}
 			}
 		}
-		maxI := new(big.Int).SetUint64(1<<63 - 1)
-		okG := false
-		if G != nil {
-			t := new(big.Int).Mul(G, big.NewInt(10))
-			t.Add(t, big.NewInt(9))
-			okG = t.Cmp(maxI) <= 0
-		}
-		c.Check(okShape && digitOK && okG, R, key, p.pos(ret.Pos()), fmt.Sprintf("int64 accumulator, digits only, guard %v with 10*G+9 <= MaxInt64", G),
-			fmt.Sprintf("the fast path can overflow or accept non-digits (multiply-add shape: %v, digit-only test: %v, guard %v bounds 10*G+9 by MaxInt64: %v): a long integer measurement wraps to a wrong value with no error", okShape, digitOK, G, okG))
+		c.Check(okSrc, R, key, p.pos(ret.Pos()), "the fast path returns float64(integer accumulator), which the language rounds correctly",
+			"the fast path returns "+valStr(v)+" rather than float64(integer accumulator): digits accumulated in floating point (or scaled by a power of ten) are rounded more than once, so long digit strings come out an ulp or more away from the correctly rounded value")
 	}
-	c.Floor(R, "fast-path returns of the float wrapper", nFast, 1)
+	c.Floor(R, "fast-path returns of the float wrapper", nRet, 1)
+}
+
+func isUint8(t types.Type) bool {
+	b, ok := t.Underlying().(*types.Basic)
+	return ok && b.Kind() == types.Uint8
 }
 
 func c03FastInt(c *Ctx, p *Prog) {
